@@ -246,7 +246,7 @@ pub fn fuzz(id: &str, data: &[u8]) {
                 }
                 let fix = |ops: &mut Vec<c13::Op>| {
                     ops.truncate(12);
-                    ops.retain(|o| !matches!(o, c13::Op::Slice(v) if v.is_empty()));
+                    ops.retain(|o| !matches!(o, c13::Op::Slice(v) if v.is_empty()) && !matches!(o, c13::Op::Bulk(..)));
                 };
                 fix(&mut c.prefix);
                 fix(&mut c.suffix);
